@@ -49,7 +49,7 @@ SPEC = {
   'assumptions': [
     'length >= 1 (an empty loop is outside the modelled domain)',
     'the constancy check of the broadcast pass and jax.vmap unbatchedness are modelled by their verdict only; when they pass, the constants are the body outputs on the first iteration inputs',
-    'single scope, collections hold flat name->array dicts (no nested modules inside the loop body), no AxisMetadata boxes (C19 covers add_axis/remove_axis), data_transform / _split_transpose / check_constancy_invariants=False not modelled',
+    'single scope, collections hold flat name->array dicts (no nested modules inside the loop body), no AxisMetadata boxes (C19 covers add_axis/remove_axis), data_transform / _split_transpose not modelled; check_constancy_invariants=False (simple_scan_fn) is modelled: broadcast collections are inputs only there',
     'PRNG counters (fold_in of the per-scope draw counter) are C09; here a key is identified with the stream key it was folded from',
   ],
   'model_partial': [
@@ -344,6 +344,7 @@ def transform_kwargs(case):
       length=cfg['length'],
       reverse=cfg['reverse'],
       unroll=cfg['unroll'],
+      check_constancy_invariants=cfg.get('check_const', True),
     )
   if k == 'vmap':
     return dict(
@@ -495,8 +496,8 @@ def oracle_scan(case, offsets):
     for col, cc in upd.items():
       r = first_role(out_fs, col)
       if r == 0:
-        if first:
-          bvars[col] = cc  # initialised once, shared afterwards
+        if first and cfg.get('check_const', True):
+          bvars[col] = cc  # initialised once, shared afterwards (simple_scan_fn: broadcast collections are inputs only)
       elif r == 1:
         cvars[col] = cc
       elif r is not None:
@@ -998,6 +999,7 @@ def gen_scan_case(rng, stream='valid', api=None, kind='scan'):
     if stream == 'wild' and rng.random() < 0.15:
       roles[c] = 'none'
   wild = stream == 'wild'
+  check_const = True if kind != 'scan' else rng.random() < 0.65   # check_constancy_invariants (False: simple_scan_fn)
   ax1 = rng.randrange(-rank1, rank1)
   ax2 = rng.randrange(-rank1, rank1)
   mode1 = rng.choice(['both', 'both', 'both', 'out', 'in'])
@@ -1132,7 +1134,7 @@ def gen_scan_case(rng, stream='valid', api=None, kind='scan'):
     present = rng.random() < 0.75
     if wild and rng.random() < 0.5:
       present = rng.random() < 0.5
-    elif not is_mut[c] or ir[0] == 'carry':
+    elif not is_mut[c] or ir[0] == 'carry' or (ir[0] == 'bcast' and not check_const):
       present = True  # cannot be created inside the loop
     elif orl[0] in ('axis',) and ir[0] == 'none':
       present = False  # Out-only axis collection: created by the loop
@@ -1205,7 +1207,7 @@ def gen_scan_case(rng, stream='valid', api=None, kind='scan'):
   common_axis = rng.randrange(-rank1, rank1) if rng.random() < 0.5 else None  # one int for the whole output tree
   hi = rng.choice([0, nys - 1]) if nys >= 2 and rng.random() < 0.7 else None  # position of the higher-rank leaf
   for k in range(nys):
-    if rng.random() < 0.15 and (known_regs or const_leaves) and common_axis is None:
+    if rng.random() < 0.15 and (known_regs or const_leaves) and common_axis is None and check_const:
       ys_e.append(rand_expr(rng, known_regs + const_leaves, 1))
       ys_axes.append(None)  # a loop-independent output declared broadcast / None
     else:
@@ -1231,6 +1233,7 @@ def gen_scan_case(rng, stream='valid', api=None, kind='scan'):
       cfg['length'] = rng.choice([None, n + 1])
     cfg['reverse'] = rng.random() < 0.5
     cfg['unroll'] = rng.choice([1, 2, n])
+    cfg['check_const'] = check_const
   else:
     inferable = inferable or any(in_role[c][0] == 'axis' and any(o[0] == c for o in outer) for c in cols)
     cfg['axis_size'] = None if (inferable and rng.random() < 0.6) else n
@@ -1666,6 +1669,7 @@ def run_cases(ctx, drv, cases):
     ctx.count('length', case.get('n'))
     if case['kind'] == 'scan':
       ctx.count('reverse', case['cfg']['reverse'])
+      ctx.count('check_constancy_invariants/reverse', f"{case['cfg'].get('check_const', True)}/{case['cfg']['reverse']}")
       ctx.count('unroll', 'n' if case['cfg']['unroll'] == case.get('n') and case.get('n') not in (1, 2) else case['cfg']['unroll'])
       for a in case['cfg']['axes']:
         ctx.count('scan_axis', a[1])
